@@ -118,7 +118,8 @@ def requirements(tier):
         "j2:polar-node-checked": 100, "j2:critical-perigee-checked": 200, "j2:composition": 1000, "j2:inverse": 1000,
         "labels:kepler:compared": 500, "labels:j2:compared": 500, "labels:leap-second-inside-span": 300,
         "labels:scales-differ": 500, "labels:shared-propagator-second-orbit": 500, "labels:inplace-edit": 200,
-        "labels:first-orbit-asked-again": 500,
+        "labels:first-orbit-asked-again": 500, "labels:several-dates-judged": 1500, "labels:several-dates:direct": 100,
+        "labels:several-dates:iter": 100, "labels:several-dates:ephem": 100,
     })
     for s_ in LABEL_SCALES:
         req["labels:epoch-scale:" + s_] = 100
@@ -495,6 +496,34 @@ def run_labels_case(ctx, job, idx, rng, st):
         ctx.expect(same, f"C05/{K}-result-depends-on-orbits-served-before", dict(W, first=oA.tolist(), again=oA2.tolist()),
                    f"{pname}: A.propagate(request) after the propagator served B differs from the first answer by "
                    f"{norm(oA2[:3] - oA[:3])!r} m")
+
+        # ---- one assignment of the orbit, several dates: the propagator object used directly, an iteration, an ephemeris
+        # (n.dt is counted from the epoch for every date, whatever was asked before)
+        route = ("direct", "iter", "ephem")[(idx // 2) % 3]
+        ctx.count("labels:several-dates:" + route)
+        A2 = Orbit(valsA, date0, formA, frame, get_propagator(pname)())
+        fr = sorted(rng.uniform(0.05, 1.0) for _ in range(3))
+        if route == "direct":
+            P2 = get_propagator(pname)()
+            P2.orbit = A2
+            seq = [(f, P2.propagate(t0 + us_to_td(int(span_us * f)))) for f in fr]
+        else:
+            n_s = 4
+            step_td = us_to_td(span_us // n_s)
+            if route == "iter":
+                pts = list(A2.iter(start=date0, stop=step_td * n_s, step=step_td))
+            else:
+                pts = list(A2.ephem(start=date0, stop=step_td * n_s, step=step_td))
+            seq = [((x.date - t0).total_seconds() / dt, x) for x in pts[1:]]
+        dt_full = dt
+        for f, res in seq:
+            dt = dt_full * f  # `truth` and `judge` read dt
+            if abs(dt) < 1e-3:
+                continue
+            ctx.count("labels:several-dates-judged")
+            judge(f"{route}: date {f:.3f} of the span, asked after earlier dates on the same assignment", "state-depends-on-dates-asked-before",
+                  cA, rA, vA, res, extra=dict(route=route, fraction=f))
+        dt = dt_full
 
         # ---- the orbit is edited in place (another size and shape), then asked again -------------------------
         if rng.random() < 0.5:
